@@ -290,6 +290,13 @@ PreludeOps ==
                               ann("c3", Complex("Directional", <<TB("Res", ById("r1"), NoRef, NoOffset), TB("Set", ById("s1"), NoRef, NoOffset),
                                                                  TB("Key", ById("s1"), ById("k1"), NoOffset), TB("Ann", ById("a3"), NoRef, NoOffset)>>), <<>>),
                               ann("c4", Complex("Directional", <<TB("Ann", ById("a3"), NoRef, Off("E", -2, "E", -1)), t(4, 5), TB("Ann", ById("a1"), NoRef, NoOffset)>>), d2)>>
+         \* 21: data of the W3C Web Annotation vocabulary (exported as members of the annotation, not in its body)
+         [] Prelude = 21 -> LET w(k, v) == DB(ById("WA"), ById(k), NoRef, StrVal(v)) IN
+                            <<addres, addset, ann("a1", txt(0, 1), <<w("created", "v1")>> \o d1),
+                              ann("a2", txt(1, 2), <<w("creator", "v2")>>),
+                              ann("a3", txt(0, 2), <<w("motivation", "v1"), w("created", "v3")>>),
+                              ann("a4", TB("Res", ById("r1"), NoRef, NoOffset), <<w("created", "v1")>> \o d2),
+                              ann("a5", Complex("Multi", <<txt(0, 1), txt(2, 3)>>), d1 \o <<w("creator", "v1")>>)>>
          \* 6: metadata annotations on keys/data/sets and annotations on annotations (chain + relative offset)
          [] OTHER -> <<addres, addset, ann("a1", txt(0, 2), d1),
                        ann("", TB("Key", ById("s1"), ById("k1"), NoOffset), <<>>),
